@@ -16,62 +16,80 @@ open Biscuit Biscuit.Wire
 
 /-- Guard: `Str` never panics in the repaired code, for any table and any 64-bit index. -/
 theorem str_guard (t : SymTable) (i : Nat) : (symStrGo false t i).isPanic = false := by
-  sorry
+  exact symStrGo_false_no_panic t i
 
 /-- D5, pinned: an index at 2^63 panics. -/
 theorem str_pinned_panics : symStrGo true [] (2^63) = .panic .symbolIndexNegative := by
-  sorry
+  simp [symStrGo]
 
 /-- Guard: the proof check never panics in the repaired code, for any secret length. -/
 theorem seed_guard (S : SigScheme) (current : Bytes) (e : BiscuitMsg) :
     (verifyProofGo false S current e).isPanic = false := by
-  sorry
+  exact verifyProofGo_false_no_panic S current e
 
 /-- D6, pinned: a 3-byte next secret panics. -/
 theorem seed_pinned_panics (S : SigScheme) (current : Bytes) (e : BiscuitMsg)
     (h : e.proof = .nextSecret [1, 2, 3]) : verifyProofGo true S current e = .panic .badSeedLength := by
-  sorry
+  simp [verifyProofGo, h]
 
 /-- Resolution of every decodable token is total in the repaired code. -/
 theorem resolve_guard (msgs : List BlockMsg) : (resolveTokenL false msgs).isPanic = false := by
-  sorry
+  exact resolveTokenL_no_panic msgs
 
 /-- A run never reports a panic unless some expression evaluation panicked. -/
 theorem run_panic_from_eval {V E : Type} [DecidableEq V] (ev : Bindings V → E → Outcome Bool)
     (hev : ∀ σ e, (ev σ e).isPanic = false) (mf mi : Nat) (P : List (Rule V E)) (F W : List (Fact V))
     (site : PanicSite) : run ev mf P mi F ≠ (W, some (.panic site)) := by
-  sorry
+  exact run_ne_panic ev hev mf P site mi F W
 
 /-- Authorization never yields a panic outcome with the repaired set operations. -/
 theorem authorize_no_panic (cfg : EvalCfg) (hs : cfg.sets = .loops) (tok : Token) (s : AuthState) (site : PanicSite) :
     (authorize cfg tok s).2 ≠ .runError (.panic site) := by
-  sorry
+  exact authorizeWith_ne_panic cfg hs false tok s site
 
 /-- **C10.** For every byte string, every signature scheme, every root key, every authorizer
 state (any facts, rules, checks, policies, limits): decoding, verifying, resolving and
 authorizing ends in a rejection or a verdict — never in a panic. -/
 theorem decode_verify_authorize_no_panic_partial (S : SigScheme) (cfg : EvalCfg) (hs : cfg.sets = .loops)
     (root bs : Bytes) (s : AuthState) : (pipeline false false S cfg root bs s).isPanic = false := by
-  sorry
+  unfold pipeline
+  split
+  · rfl
+  · split
+    · rfl
+    · split
+      · rfl
+      · refine Outcome.isPanic_bind (verifyProofGo_false_no_panic S _ _) fun pr => ?_
+        split
+        · rfl
+        · refine Outcome.isPanic_bind (resolveTokenL_no_panic _) fun blocks => ?_
+          split
+          · rfl
+          · split
+            · next site hv => exact absurd hv (authorize_no_panic cfg hs _ s site)
+            · rfl
 
 /-- Printing any decodable token never panics. -/
 theorem print_no_panic (bs : Bytes) : (printOutcome false bs).isPanic = false := by
-  sorry
+  unfold printOutcome
+  split
+  · rfl
+  · exact Outcome.isPanic_bind (resolveTokenL_no_panic _) fun _ => rfl
 
 /-- Queries after authorization, attenuation and sealing are `Except`-valued functions of
 the model (`query`, `appendEnvelope`, `sealEnvelope`): an error or a value by type. What
 remains to say is that the secret-length gate makes them errors, not panics: -/
 theorem append_bad_secret_is_error (S : SigScheme) (e : BiscuitMsg) (sk : Bytes) (hp : e.proof = .nextSecret sk)
     (hl : sk.length ≠ 32) (block : Bytes) (rng : Rng) : appendEnvelope S e block rng = .error .keySize := by
-  sorry
+  simp [appendEnvelope, appendEnvelopeWith, hp, hl]
 
 theorem seal_bad_secret_is_error (S : SigScheme) (e : BiscuitMsg) (sk : Bytes) (hp : e.proof = .nextSecret sk)
     (hl : sk.length ≠ 32) : sealEnvelope S e = .error .keySize := by
-  sorry
+  simp [sealEnvelope, sealEnvelopeWith, hp, hl]
 
 /-- An operator message without kind does not decode (repaired converters; the pinned
 code dereferenced the nil kind). -/
 theorem op_without_kind_rejected : decOp (encodeFields [bField 3 (encodeFields [])]) = none := by
-  sorry
+  decide +kernel
 
 end Biscuit.C10
